@@ -50,13 +50,15 @@ type ruleT struct {
 }
 
 type opT struct {
-	Kind string `json:"kind"`          // enter | skip-plain | skip-empty | exit | fire | conn | disc | reload
-	Var  int    `json:"var,omitempty"` // reload: 0 identical rule via LoadRuleOfResource, 1 identical via LoadRules, 2 / 3 the same with changed RecoveryIntervalMs / RecycleIntervalS / MaxRecoveryAttempts
-	Dt   uint64 `json:"dt"`            // clock advance (ms) before the operation
-	Slot int    `json:"slot"`          // which of the (at most two) concurrently live requests
-	Addr int    `json:"addr,omitempty"`
-	Err  bool   `json:"err,omitempty"`
-	Rt   uint64 `json:"rt,omitempty"`
+	Kind    string  `json:"kind"`          // enter | skip-plain | skip-empty | exit | fire | conn | disc | reload
+	Pct     float64 `json:"pct,omitempty"` // reload with Var 4 (LoadRuleOfResource) / 5 (LoadRules): the new MaxEjectionPercent, nothing else changes
+	PctBits string  `json:"pct_bits,omitempty"`
+	Var     int     `json:"var,omitempty"` // reload: 0 identical rule via LoadRuleOfResource, 1 identical via LoadRules, 2 / 3 the same with changed RecoveryIntervalMs / RecycleIntervalS / MaxRecoveryAttempts
+	Dt      uint64  `json:"dt"`            // clock advance (ms) before the operation
+	Slot    int     `json:"slot"`          // which of the (at most two) concurrently live requests
+	Addr    int     `json:"addr,omitempty"`
+	Err     bool    `json:"err,omitempty"`
+	Rt      uint64  `json:"rt,omitempty"`
 }
 
 type caseT struct {
@@ -72,6 +74,7 @@ const (
 	pairBase   = 200000
 	limBase    = 300000
 	reloadBase = 400000
+	pctBase    = 500000 // reloads that change MaxEjectionPercent only (monitor only: the model's rule is a fixed parameter)
 )
 
 func third() float64 { return 1.0 / 3 }
@@ -272,6 +275,51 @@ func genReload(r *rng.R, id int) caseT {
 	return c
 }
 
+// genPct: reloads whose only change is MaxEjectionPercent - by one ulp, by less than 1e-8, across an
+// integer boundary of n*p, or by a lot.  All n nodes fail and are ejected; a request is measured under
+// the first percentage, the rule is reloaded, a request is measured under the new one (the quota of the
+// rule loaded LAST bounds the filter list), optionally once more after a second reload.
+func genPct(r *rng.R, id int) caseT {
+	c := caseT{ID: id, Class: "pct-reload"}
+	n := int(r.PickI(2, 3, 4, 4, 5, 6, 8, 10))
+	c.Nodes = n
+	p0 := r.PickF(0.5, 0.5, 0.25, 0.75, 1, float64(1+r.Intn(n))/float64(n), 0.6)
+	c.Rule = ruleT{Strategy: 2, RetryMs: 100000, MinReq: 1, StatMs: 60000, Thr: 1, ProbeNum: 1, Active: r.Chance(1, 4), Pct: p0,
+		PctBits: fmt.Sprintf("%016x", math.Float64bits(p0))}
+	for i := 1; i <= n; i++ {
+		c.Ops = append(c.Ops, opT{Kind: "enter", Dt: 1}, opT{Kind: "exit", Addr: i, Err: true})
+	}
+	c.Ops = append(c.Ops, opT{Kind: "enter", Dt: 1}, opT{Kind: "exit"})
+	cur := p0
+	for k := 1 + r.Intn(2); k > 0; k-- {
+		var p float64
+		switch r.Intn(7) {
+		case 0, 1:
+			p = math.Nextafter(cur, 0)
+		case 2:
+			p = cur - 5e-9
+		case 3:
+			p = cur - 1e-7
+		case 4:
+			p = math.Nextafter(cur, 2)
+		case 5:
+			p = cur / 2
+		default:
+			p = float64(r.Intn(n+1)) / float64(n)
+		}
+		if p < 0 {
+			p = 0
+		}
+		if p > 1 {
+			p = 1
+		}
+		c.Ops = append(c.Ops, opT{Kind: "reload", Var: 4 + r.Intn(2), Pct: p, PctBits: fmt.Sprintf("%016x", math.Float64bits(p))},
+			opT{Kind: "enter", Dt: 1}, opT{Kind: "exit"})
+		cur = p
+	}
+	return c
+}
+
 type pairT struct {
 	n   int
 	pct float64
@@ -351,12 +399,13 @@ func runCase(c caseT, clk *vclock.Clock) []obsT {
 	res := resName(c.ID)
 	// a fresh rule object (and a fresh circuit-breaker part) per load; gen > 0 changes only fields that
 	// neither the node breakers nor the slot's decisions depend on
+	curPct := c.Rule.Pct
 	mkRule := func(gen int) *outlier.Rule {
 		ru := &outlier.Rule{
 			Rule: &circuitbreaker.Rule{Resource: res, Strategy: circuitbreaker.Strategy(c.Rule.Strategy), RetryTimeoutMs: c.Rule.RetryMs,
 				MinRequestAmount: c.Rule.MinReq, StatIntervalMs: c.Rule.StatMs, MaxAllowedRtMs: c.Rule.MaxRt, Threshold: c.Rule.Thr, ProbeNum: c.Rule.ProbeNum},
 			EnableActiveRecovery: c.Rule.Active,
-			MaxEjectionPercent:   c.Rule.Pct,
+			MaxEjectionPercent:   curPct,
 			MaxRecoveryAttempts:  3,
 		}
 		if c.Rule.Active {
@@ -458,7 +507,10 @@ func runCase(c caseT, clk *vclock.Clock) []obsT {
 			retryerFor(o.Addr).VerifDisconnected(addrName(o.Addr))
 		case "reload":
 			g := 0
-			if o.Var >= 2 {
+			if o.Var >= 4 {
+				curPct = o.Pct // only the percentage changes
+				g = gen
+			} else if o.Var >= 2 {
 				gen++
 				g = gen
 			} else {
@@ -542,6 +594,7 @@ func monitor(c caseT, obs []obsT, rep *emit.Report) (st monStats) {
 	openAt := map[int]uint64{} // clock at which the node was last seen to become Open
 	sched := map[int]bool{}    // scheduled for recycling -> completed successfully since
 	kinds := [2]string{"", ""}
+	curPct, curBits := c.Rule.Pct, c.Rule.PctBits // the percentage of the rule loaded last
 	fail := func(clause, sig, detail string) { rep.Fail(c.ID, clause, sig, detail, c) }
 	for i, o := range c.Ops {
 		ob := obs[i]
@@ -588,16 +641,16 @@ func monitor(c caseT, obs []obsT, rep *emit.Report) (st monStats) {
 				}
 			}
 			n := len(known)
-			fl, up := exactFloor(n, c.Rule.Pct)
+			fl, up := exactFloor(n, curPct)
 			if int64(len(ob.Filter)) > fl {
 				if up && int64(len(ob.Filter)) == fl+1 {
 					st.knownFinding = true
 					roundUpReported++
 					if roundUpReported <= 5 {
-						fail("C20_filter_bound", sigRoundUp, fmt.Sprintf("op %d: %d nodes filtered of %d known, MaxEjectionPercent=%v (bits %s): floor(n*pct)=%d but float64(n)*pct rounds up to %d", i, len(ob.Filter), n, c.Rule.Pct, c.Rule.PctBits, fl, fl+1))
+						fail("C20_filter_bound", sigRoundUp, fmt.Sprintf("op %d: %d nodes filtered of %d known, MaxEjectionPercent=%v (bits %s): floor(n*pct)=%d but float64(n)*pct rounds up to %d", i, len(ob.Filter), n, curPct, curBits, fl, fl+1))
 					}
 				} else {
-					fail("C20_filter_bound", "filter-exceeds-floor-of-share", fmt.Sprintf("op %d: %d nodes filtered of %d known, MaxEjectionPercent=%v: floor(n*pct)=%d", i, len(ob.Filter), n, c.Rule.Pct, fl))
+					fail("C20_filter_bound", "filter-exceeds-floor-of-share", fmt.Sprintf("op %d: %d nodes filtered of %d known, MaxEjectionPercent=%v (bits %s, the rule loaded last): floor(n*pct)=%d", i, len(ob.Filter), n, curPct, curBits, fl))
 					return
 				}
 			}
@@ -655,6 +708,10 @@ func monitor(c caseT, obs []obsT, rep *emit.Report) (st monStats) {
 				}
 			}
 			kinds[o.Slot] = ""
+		case "reload":
+			if o.Var >= 4 {
+				curPct, curBits = o.Pct, o.PctBits
+			}
 		case "conn":
 			if _, ok := sched[o.Addr]; ok {
 				sched[o.Addr] = true
@@ -782,7 +839,7 @@ func main() {
 
 	root := rng.New(a.Seed)
 	rep := emit.NewReport("C20", a.Seed, a.Tier)
-	rep.Rule = "history cases: one outlier rule (3 breaker strategies, MaxEjectionPercent from k/20, simple fractions, random doubles; active recovery on/off), 1-12 callee addresses with healthy/flaky/dead failure classes, 16-60 operations (requests with up to two live at once, requests whose outlier check does not run, recycler timer firings, retryer outcomes) with clock steps on and around the retry timeout / statistic interval. pair cases: n nodes all ejected, then one measured request, for (n, pct) pairs. reload cases: k of n nodes ejected and scheduled, 0-2 rule reloads (identical rule or changed RecoveryIntervalMs / RecycleIntervalS / MaxRecoveryAttempts, through LoadRuleOfResource or LoadRules) before and after the successful completion (passive probe or retryer callback) of one of them, then the timers fire on the recycler object that armed them; random histories carry such reloads too (2 in 100 operations). Non-trivial = some request reported a non-empty filter list AND (a request had more rejecting nodes than it was allowed to filter, or reported a half-open node, or a timer recycled a node, or a node survived its timer because of a successful completion); distinct by full input."
+	rep.Rule = "history cases: one outlier rule (3 breaker strategies, MaxEjectionPercent from k/20, simple fractions, random doubles; active recovery on/off), 1-12 callee addresses with healthy/flaky/dead failure classes, 16-60 operations (requests with up to two live at once, requests whose outlier check does not run, recycler timer firings, retryer outcomes) with clock steps on and around the retry timeout / statistic interval. pair cases: n nodes all ejected, then one measured request, for (n, pct) pairs. reload cases: k of n nodes ejected and scheduled, 0-2 rule reloads (identical rule or changed RecoveryIntervalMs / RecycleIntervalS / MaxRecoveryAttempts, through LoadRuleOfResource or LoadRules) before and after the successful completion (passive probe or retryer callback) of one of them, then the timers fire on the recycler object that armed them; random histories carry such reloads too (2 in 100 operations). pct-reload cases (monitor only): all n nodes ejected, a request measured, then 1-2 reloads whose only change is MaxEjectionPercent (one ulp down / up, 5e-9 or 1e-7 down, halved, another k/n), each followed by a measured request: the quota of the rule loaded last bounds the filter. Non-trivial = some request reported a non-empty filter list AND (a request had more rejecting nodes than it was allowed to filter, or reported a half-open node, or a timer recycled a node, or a node survived its timer because of a successful completion); distinct by full input."
 	nCorr := a.Pick(a.N, 220, 3000)
 	nMon := a.Pick(a.Mon, 2500, 30000)
 	if a.Search {
@@ -801,6 +858,9 @@ func main() {
 	pairs := pairList(a.Tier)
 
 	getCase := func(id int) caseT {
+		if id >= pctBase {
+			return genPct(root.Fork(uint64(id)), id)
+		}
 		if id >= reloadBase {
 			return genReload(root.Fork(uint64(id)), id)
 		}
@@ -871,6 +931,10 @@ func main() {
 	// scripted reload histories (recycler / retryer bookkeeping across rule reloads)
 	for j := 0; j < a.Pick(0, 40, 600); j++ {
 		runOne(reloadBase+j, !a.Search)
+	}
+	// reloads that change only MaxEjectionPercent (monitor only)
+	for j := 0; j < a.Pick(0, 60, 1500); j++ {
+		runOne(pctBase+j, false)
 	}
 	// (n, pct) pairs on the implementation, passive and active
 	for j := 0; j < 2*len(pairs); j++ {
